@@ -1628,10 +1628,10 @@ def _rescale(cx, name, args, sub):
     """affine pre-factor 2^k (and a shift) in front of a table entry: moves the argument (|x| <~ 2 in the
     plain trees) into the saturated / asymptotic regime (|arg| up to ~100) or towards 0 (down to 2^-40)"""
     r = cx.r
-    if not r.b(0.3):
+    if not r.b(0.35):
         return sub
     if name in BOUNDED:
-        ks = [3, 4, -10, -24, -40] if cx.cplx else [4, 5, 6, 6, -10, -24, -40]
+        ks = [3, 4, -10, -24, -40] if cx.cplx else [4, 5, 6, 6, 7, -10, -24, -40]
     elif name in ("sqrt", "log", "log10"):
         ks = [-8, 4, 8]
     elif name == "reciprocal":
@@ -2342,8 +2342,8 @@ def check_sweep(rec):
         bv = SWEEP_TOL * (np.abs(f) + np.abs(pts * f1) + 1.)
         bd = SWEEP_TOL * (np.abs(f1) + np.abs(pts * f2) + 1.) * np.abs(d)
         info = f"\nname={name} args={rec['args']}\npoints={pts}"
-        _rowclose(pv, f, bv, "sweep_value_vs_reference", 0, info)
-        _rowclose(lv, pv, 1e-13 * (np.abs(f) + 1.), "sweep_lin_val_vs_plain", 0, info)
+        _rowclose(pv, f, bv, "sweep_value_vs_reference:" + name, 0, info)
+        _rowclose(lv, pv, 1e-13 * (np.abs(f) + 1.), "sweep_lin_val_vs_plain:" + name, 0, info)
         D = np.diag(f1 * d)
         if cplx:
             R = np.block([[D.real, -D.imag], [D.imag, D.real]])
@@ -2354,8 +2354,8 @@ def check_sweep(rec):
             R = D
             Jt = nx.dense(lin.jac, nx.TIMES, dtype=np.float64)
             Ja = nx.dense(lin.jac, nx.ADJ, dtype=np.float64)
-        _rowclose(Jt, R, bd, "sweep_derivative_vs_reference", 0, info + f"\nf'={f1}")
-        _rowclose(Ja, R.T, bd, "sweep_adjoint_vs_transpose", 1, info + f"\nf'={f1}")
+        _rowclose(Jt, R, bd, "sweep_derivative_vs_reference:" + name, 0, info + f"\nf'={f1}")
+        _rowclose(Ja, R.T, bd, "sweep_adjoint_vs_transpose:" + name, 1, info + f"\nf'={f1}")
     cl = ["fn:" + name, "route%d" % route, "complex" if cplx else "real", "want_metric" if wm else "no_metric"]
     cl += _sweep_regimes(name, pts, cplx)
     for a in rec["args"]:
@@ -2463,6 +2463,267 @@ def sweep_cases(tier, seed):
     return res
 
 
+
+# ====================================================================== einsum_general
+# MultiLinearEinsum / LinearEinsum over its documented argument domain: 2-4 operands, generated subscripts
+# (contractions, outer/broadcast indices, transposed index orders, scalar operands, spaces with several
+# array axes), operand shapes equal and unequal, every order of the keys (`key_order`; None where allowed),
+# static fields at any position (as dict or MultiField), every `optimize` form, real and complex.
+# Reference: the operands are expanded to the full index space by numpy broadcasting, multiplied and summed
+# (no einsum); the Jacobian follows from multilinearity (operand replaced by basis vectors).
+EIN_TOL = 1e-10
+EIN_PRE = {"sin": (np.sin, np.cos), "exp": (np.exp, np.exp), "tanh": (np.tanh, lambda v: 1. - np.tanh(v) ** 2)}
+
+
+def _ein_space(spec):
+    if spec[0] == "un":
+        return ift.UnstructuredDomain(spec[1])
+    shp = tuple(spec[1])
+    return ift.RGSpace(shp if len(shp) > 1 else shp[0])
+
+
+def _ein_ref(order, lshape, sss, arrays, out):
+    """sum over the letters not in `out` of the product of the operands; `order`: all letters, lshape:
+    letter -> tuple of axis lengths (a space may have several axes)"""
+    full = None
+    for ss, a in zip(sss, arrays):
+        a = np.asarray(a)
+        # axes of `a`: letters of ss in order, each with its own block of array axes
+        blocks, pos = {}, 0
+        for L in ss:
+            blocks[L] = list(range(pos, pos + len(lshape[L])))
+            pos += len(lshape[L])
+        perm = [ax for L in order if L in blocks for ax in blocks[L]]
+        a = np.transpose(a, perm) if perm else a
+        shp = []
+        for L in order:
+            shp += list(lshape[L]) if L in blocks else [1] * len(lshape[L])
+        a = a.reshape(shp)
+        full = a if full is None else full * a
+    full = np.broadcast_to(full, [m for L in order for m in lshape[L]])
+    # sum the letters not in out, then move the remaining blocks into the order of `out`
+    axes, pos, keep = [], 0, {}
+    for L in order:
+        blk = list(range(pos, pos + len(lshape[L])))
+        pos += len(lshape[L])
+        if L in out:
+            keep[L] = blk
+        else:
+            axes += blk
+    res = full.sum(axis=tuple(axes)) if axes else np.array(full)
+    rem = [L for L in order if L in out]
+    cur, pos = {}, 0
+    for L in rem:
+        cur[L] = list(range(pos, pos + len(lshape[L])))
+        pos += len(lshape[L])
+    perm = [ax for L in out for ax in cur[L]]
+    return np.transpose(res, perm) if perm else res
+
+
+def check_einsum(rec):
+    cplx = bool(rec["cplx"])
+    dt = np.complex128 if cplx else np.float64
+    spaces = {L: _ein_space(sp) for L, sp in sorted(rec["spaces"].items())}
+    lshape = {L: tuple(spaces[L].shape) for L in spaces}
+    order = sorted(spaces)
+    ops = rec["ops"]
+    out = rec["out"]
+    sss = [o["ss"] for o in ops]
+    keys = [o["key"] for o in ops]
+    doms = [ift.DomainTuple.make(tuple(spaces[L] for L in o["ss"])) for o in ops]
+    vals = [nx.arr(o["val"]).astype(dt).reshape(dm.shape) for o, dm in zip(ops, doms)]
+    subscripts = ",".join(sss) + "->" + out
+    opt = rec["optimize"]
+    if opt == "path":
+        opt = ["einsum_path"] + [(0, 1)] * (len(ops) - 1)
+    tgt = ift.DomainTuple.make(tuple(spaces[L] for L in out))
+    linear = rec["mode"] == "linear"
+    if linear:
+        dyn = [len(ops) - 1]
+    else:
+        dyn = [i for i, o in enumerate(ops) if not o["static"]]
+    pre = [ops[i].get("pre") for i in range(len(ops))]
+    # ---- reference
+    yv = [EIN_PRE[pre[i]][0](vals[i]) if (i in dyn and pre[i]) else vals[i] for i in range(len(ops))]
+    yref = _ein_ref(order, lshape, sss, yv, out).reshape(-1)
+    cols = []
+    for i in sorted(dyn, key=lambda t: keys[t]):      # MultiDomain keys are sorted
+        dv = EIN_PRE[pre[i]][1](vals[i]).reshape(-1) if pre[i] else np.ones(vals[i].size, dtype=dt)
+        for e in range(vals[i].size):
+            b = np.zeros(vals[i].size, dtype=dt)
+            b[e] = dv[e]
+            arrs = list(yv)
+            arrs[i] = b.reshape(vals[i].shape)
+            cols.append(_ein_ref(order, lshape, sss, arrs, out).reshape(-1))
+    Jref = np.stack(cols, axis=1)
+    # ---- library
+    with np.errstate(all="ignore"):
+        if linear:
+            fixed = {keys[i]: ift.makeField(doms[i], np.array(vals[i])) for i in range(len(ops) - 1)}
+            mf = ift.MultiField.from_dict(fixed)
+            ko = None if rec["ko_none"] else tuple(keys[:-1])
+            op = ift.LinearEinsum(doms[-1], mf, subscripts, key_order=ko, optimize=opt)
+            x = ift.makeField(doms[-1], np.array(vals[-1]))
+            full = op if not pre[-1] else op @ ift.ScalingOperator(doms[-1], 1.).ptw(pre[-1])
+        else:
+            dd = {keys[i]: doms[i] for i in dyn}
+            domain = dd if rec["domdict"] else ift.MultiDomain.make(dd)
+            stat = {keys[i]: ift.makeField(doms[i], np.array(vals[i])) for i in range(len(ops)) if i not in dyn}
+            if not stat:
+                smf = None
+            else:
+                smf = stat if rec["static_as"] == "dict" else ift.MultiField.from_dict(stat)
+            ko = None if rec["ko_none"] else tuple(keys)
+            op = ift.MultiLinearEinsum(domain, subscripts, key_order=ko, static_mf=smf, optimize=opt)
+            x = ift.MultiField.from_dict({keys[i]: ift.makeField(doms[i], np.array(vals[i])) for i in dyn})
+            full = op
+            if any(pre[i] for i in dyn):
+                inner = None
+                for i in dyn:
+                    fa = ift.FieldAdapter(doms[i], keys[i])
+                    if pre[i]:
+                        fa = fa.ptw(pre[i])
+                    fa = fa.ducktape_left(keys[i])
+                    inner = fa if inner is None else inner + fa
+                full = op @ inner
+        require(op.target == tgt, "einsum_target", f"{op.target} vs {tgt}")
+        require(full.domain is x.domain, "einsum_domain", f"{full.domain} vs {x.domain}")
+        wm = bool(rec["wm"])
+        plain = full(x)
+        lin = full(ift.Linearization.make_var(x, wm))
+        require(plain.domain is op.target and lin.val.domain is op.target, "einsum_value_domain", "")
+        require(lin.jac.domain is x.domain and lin.jac.target is op.target, "einsum_jac_domain", "")
+        require(lin.metric is None, "einsum_metric_unrequested", "")
+        info = f"\nsubscripts={subscripts} keys={keys} dyn={[keys[i] for i in dyn]} optimize={rec['optimize']}"
+        sc = max(1., float(np.max(np.abs(yref))), float(np.max(np.abs(Jref))))
+        close(nx.flat(plain), yref, "einsum_value_vs_reference", tol=EIN_TOL, scale=sc, detail=info)
+        close(nx.flat(lin.val), nx.flat(plain), "einsum_lin_val_vs_plain", tol=1e-12, scale=sc, detail=info)
+        if cplx:
+            R = np.block([[Jref.real, -Jref.imag], [Jref.imag, Jref.real]])
+            Jt = nx.dense_real(lin.jac, nx.TIMES)
+            Ja = nx.dense_real(lin.jac, nx.ADJ)
+        else:
+            R = Jref
+            Jt = nx.dense(lin.jac, nx.TIMES, dtype=np.float64)
+            Ja = nx.dense(lin.jac, nx.ADJ, dtype=np.float64)
+        close(Jt, R, "einsum_jacobian_vs_reference", tol=EIN_TOL, scale=sc, detail=info + f"\nlibrary=\n{Jt}\nreference=\n{R}")
+        close(Ja, R.T, "einsum_adjoint_vs_transpose", tol=EIN_TOL, scale=sc,
+              detail=info + f"\nlibrary=\n{Ja}\nreference=\n{R.T}")
+    # ---- classes
+    cnt = {L: sum(1 for t in sss if L in t) for L in order}
+    cl = ["linear_einsum" if linear else "multilinear_einsum", "operands%d" % len(ops), "complex" if cplx else "real",
+          "optimize=%s" % (rec["optimize"],), "dynamic%d" % len(dyn)]
+    if not linear:
+        cl.append("static%d" % (len(ops) - len(dyn)))
+        if len(dyn) < len(ops):
+            cl.append("static_as_" + rec["static_as"])
+        cl.append("domain_as_dict" if rec["domdict"] else "domain_as_MultiDomain")
+    kk = keys[:-1] if linear else keys
+    cl.append("key_order_None" if rec["ko_none"] else ("key_order_sorted" if kk == sorted(kk) else "key_order_unsorted"))
+    shapes = [v.shape for v in vals]
+    cl.append("operand_shapes_equal" if all(t == shapes[0] for t in shapes) else "operand_shapes_unequal")
+    contraction = any(cnt[L] >= 2 and L not in out for L in order)
+    if contraction:
+        cl.append("contraction")
+    if any(cnt[L] >= 2 and L in out for L in order):
+        cl.append("batch_index")
+    if any(cnt[L] == 1 and L not in out for L in order):
+        cl.append("lonely_sum_index")
+    if len(set("".join(sss))) > max(len(t) for t in sss):
+        cl.append("outer_or_broadcast")
+    if any(len(lshape[L]) > 1 for L in order):
+        cl.append("multi_axis_space")
+    if any(t == "" for t in sss):
+        cl.append("scalar_operand")
+    if out == "":
+        cl.append("scalar_output")
+    if any(sorted(t) != list(t) for t in sss + [out]):
+        cl.append("transposed_index_order")
+    if any(pre[i] for i in dyn):
+        cl.append("nonlinear_inner_operator")
+    return dict(nontrivial=len(ops) >= 3 or contraction, classes=cl)
+
+
+def _ein_recipe(t, tier):
+    r = Rnd(int(hashlib.sha256(repr(("einsum", tuple(t), tier)).encode()).hexdigest()[:16], 16))
+    cplx = r.b(0.3)
+    lim_dyn, lim_out, lim_op = (10, 12, 9) if cplx else (18, 16, 12)
+    while True:
+        nops = r.ch([2, 3, 3, 4])
+        letters = list("ijklabxy")
+        r.r.shuffle(letters)
+        letters = letters[:r.i(1, 4)]
+        equal = r.b(0.4)
+        eq = r.ch([2, 2, 3])
+        spaces = {}
+        for L in letters:
+            if not equal and r.b(0.12):
+                spaces[L] = ["rg", r.ch([[2, 2], [1, 2], [2, 1], [3]])]
+            else:
+                m = eq if equal else r.ch([1, 2, 2, 3, 3])
+                spaces[L] = ["un", m] if r.b(0.6) else ["rg", [m]]
+        size = {L: int(np.prod(spaces[L][1])) for L in letters}
+        sss = []
+        for _ in range(nops):
+            nl = min(len(letters), r.ch([0] + [1] * 5 + [2] * 10 + [3] * 4))
+            if equal and len(letters) >= 2:
+                nl = min(len(letters), 2)       # equally shaped operands with different roles of the indices
+            ll = list(letters)
+            r.r.shuffle(ll)
+            sss.append("".join(ll[:nl]))
+        used = [L for L in letters if any(L in t for t in sss)]
+        if not used:
+            continue
+        cand = list(used)
+        r.r.shuffle(cand)
+        out = "".join(cand[:r.i(0, min(3, len(cand)))])
+        if not REGIONS["einsum_lonely_sum_index"]:
+            for L in used:
+                if L not in out and sum(1 for t in sss if L in t) == 1:
+                    out += L
+        mode = r.ch(["mle", "mle", "mle", "linear"])
+        static = [False] * nops
+        if mode == "mle":
+            static = [r.b(0.3) for _ in range(nops)]
+            if all(static):
+                static[r.i(0, nops - 1)] = False
+        opsz = [int(np.prod([size[L] for L in t])) for t in sss]
+        dynsz = opsz[-1] if mode == "linear" else sum(z for z, st_ in zip(opsz, static) if not st_)
+        outsz = int(np.prod([size[L] for L in out]))
+        if max(opsz) > lim_op or dynsz > lim_dyn or outsz > lim_out:
+            continue
+        break
+    keys = list("abcdef")
+    r.r.shuffle(keys)
+    keys = keys[:nops]
+    ko_none = False
+    if not any(static) and r.b(0.2):
+        # key_order=None: the order of the keys of the MultiDomain / MultiField, i.e. sorted
+        if mode == "linear":
+            keys = sorted(keys[:-1]) + [keys[-1]]
+        else:
+            keys = sorted(keys)
+        ko_none = True
+
+    def val(nn):
+        if cplx:
+            return [{"re": r.dy(-2.0, 2.0, 4), "im": r.dy(-2.0, 2.0, 4)} for _ in range(nn)]
+        return [r.dy(-2.0, 2.0, 4) for _ in range(nn)]
+
+    ops = []
+    for i in range(nops):
+        ops.append({"key": keys[i], "ss": sss[i], "static": static[i], "val": val(opsz[i]),
+                    "pre": r.ch([None, None, None, "sin", "exp", "tanh"]) if not static[i] else None})
+    return {"spaces": {L: spaces[L] for L in used}, "ops": ops, "out": out, "cplx": cplx,
+            "optimize": r.ch(["optimal", "optimal", "greedy", True, False, "path"]), "mode": mode,
+            "domdict": r.b(), "static_as": r.ch(["dict", "mf"]), "ko_none": ko_none, "wm": r.b()}
+
+
+def _ein_strategy(tier):
+    return st.tuples(st.integers(0, 65535), st.integers(0, 65535), st.integers(0, 65535)).map(
+        lambda t: _ein_recipe(t, tier))
+
+
 OPF = {"T": True, "duckr": True, "pins": True}
 NT = ("non-trivial = tree depth >= 3 (>= 2 levels above the leaves) with >= 1 nonlinear node (ptw, power, "
       "reciprocal/division, operator product, einsum, jax function, energy) and >= 1 binary node "
@@ -2482,10 +2743,12 @@ SUBS = [
         shards=3, jax=True,
         rule="the tree applied node by node to Linearization objects (Linearization.__mul__/__add__/__pow__/"
              "__truediv__/ptw/sum/integrate/vdot/__getitem__/real/imag/conjugate); " + NT),
-    Sub(name="energy_metric", check=check_op, strategy=_mk_strategy(None, {"T": True, "ham": True}, root="energy"),
+    Sub(name="energy_metric", check=check_op,
+        strategy=_mk_strategy(None, {"T": True, "ham": True, "avg": True, "jaxlh": True}, root="energy"),
         quick=450, thorough=12000, shards=3, jax=True,
-        rule="likelihood energies (Gaussian, Poisson, Bernoulli, Student-t, sums, scaled, StandardHamiltonian) "
-             "and Squared2Norm/QuadraticForm at the root of an expression, want_metric drawn; metric = "
+        rule="likelihood energies (Gaussian, Poisson, Bernoulli, Student-t, inverse gamma, JaxLikelihoodEnergy"
+             "Operator; sums, scaled in four spellings, StandardHamiltonian, AveragedEnergy over 1-3 residual "
+             "samples) and Squared2Norm/QuadraticForm at the root of an expression, want_metric drawn; metric = "
              "J^T M J; " + NT),
     Sub(name="energy_eager", check=check_eager, strategy=_mk_strategy(None, {}, root="energy"),
         quick=150, thorough=6000, shards=1, jax=True,
@@ -2494,5 +2757,22 @@ SUBS = [
     Sub(name="einsum_jaxop", check=check_op,
         strategy=_mk_strategy(None, {"mle": True, "jaxop": True, "no_ric": True}),
         quick=100, thorough=3000, shards=1, jax=True,
-        rule="MultiLinearEinsum (with and without static field) and JaxOperator inside expressions; " + NT),
+        rule="MultiLinearEinsum (2-3 operands on D and on D with one space contracted, drawn key_order / "
+             "static fields / optimize) and JaxOperator (DomainTuple and MultiDomain domain / target) inside "
+             "expressions; " + NT),
+    Sub(name="ptw_sweep", check=check_sweep, cases=sweep_cases, shards=1, jax=True,
+        rule="every key of pointwise.ptw_dict (real; complex for the holomorphic entries) through ptw / named "
+             "method / ptw_pre / <name>_pre / Linearization.ptw / Linearization.<name>, 6 (thorough: 120) cases "
+             "of 16 arguments each: m*2^k with k=-40..8, j+l/8 up to 448, 0; both signs; value, f' (diagonal "
+             "Jacobian incl. its zeros, times an inner diagonal Jacobian) and adjoint against the harness' jnp "
+             "expression differentiated by jax.jvp; allowed error 1e-11*(|f'| + |x f''| + 1); "
+             "non-trivial = the 16 arguments cover >= 3 magnitude/sign regimes"),
+    Sub(name="einsum_general", check=check_einsum, strategy=_ein_strategy, quick=400, thorough=20000, shards=1,
+        rule="MultiLinearEinsum (75%) and LinearEinsum (25%) with 2-4 operands over generated subscripts "
+             "(<= 4 index letters of size 1-3 or a 2-axis space; contractions, batch, outer and lonely summed "
+             "indices, scalar operands, transposed orders), equal and unequal operand shapes, drawn key names "
+             "in drawn order (key_order unsorted / sorted / None), static fields at drawn positions (dict or "
+             "MultiField), optimize in {optimal, greedy, True, False, explicit path}, real and complex, with "
+             "and without a nonlinear operator in front; value, dense Jacobian and adjoint against a "
+             "broadcast-multiply-sum reference; non-trivial = >= 3 operands or a contracted index"),
 ]
